@@ -289,3 +289,74 @@ def prune_vacuous(conds):
                 continue
         out.append(f)
     return out
+
+
+def enumerate_paths(node, limit=4000):
+    """All structured control paths through a block/expression (If / if-let / Match / Block;
+    inner loops and closures are atomic).  Yields (facts, atoms, exit) where atoms is the list
+    of non-control nodes met in order and exit in (None, 'return', 'continue', 'break', 'panic', 'try')."""
+    out = []
+
+    def seq(items, i, conds, atoms):
+        if len(out) > limit:
+            return
+        if i == len(items):
+            out.append((conds, atoms, None))
+            return
+        for c2, a2, ex in one(items[i], conds, atoms):
+            if ex is not None:
+                out.append((c2, a2, ex))
+            else:
+                seq(items, i + 1, c2, a2)
+
+    def one(n, conds, atoms):
+        k = n["k"]
+        if k == "Block":
+            res = []
+            saved = list(out)
+            del out[:]
+            seq(n["stmts"], 0, conds, atoms)
+            res = list(out)
+            del out[:]
+            out.extend(saved)
+            return res
+        if k == "ExprStmt":
+            return one(n["e"], conds, atoms)
+        if k == "Local":
+            r = []
+            inits = one(n["init"], conds, atoms) if n["init"] is not None else [(conds, atoms, None)]
+            for c2, a2, ex in inits:
+                if ex is not None:
+                    r.append((c2, a2, ex))
+                    continue
+                if n["else"] is not None:
+                    r += one(n["else"], c2 + [("iflet", n["pat"], n["init"], False)], a2)
+                    r.append((c2 + [("iflet", n["pat"], n["init"], True)], a2 + [n], None))
+                else:
+                    r.append((c2, a2 + [n], None))
+            return r
+        if k == "If":
+            r = []
+            r += one(n["then"], conds + split_cond(n["cond"], True), atoms + [n["cond"]])
+            if n["else"] is not None:
+                r += one(n["else"], conds + split_cond(n["cond"], False), atoms + [n["cond"]])
+            else:
+                r.append((conds + split_cond(n["cond"], False), atoms + [n["cond"]], None))
+            return r
+        if k == "Match":
+            r = []
+            prev = []
+            for a in n["arms"]:
+                r += one(a["body"], conds + [("arm", n["scrut"], a["pat"], a["guard"])], atoms + [n["scrut"]])
+            return r
+        if k == "Return":
+            return [(conds, atoms + ([n["e"]] if n.get("e") else []) + [n], "return")]
+        if k == "Continue":
+            return [(conds, atoms, "continue")]
+        if k == "Break":
+            return [(conds, atoms + ([n["e"]] if n.get("e") else []), "break")]
+        if k == "Macro" and n["name"].rsplit("::", 1)[-1] in DIVERGING_MACROS:
+            return [(conds, atoms + [n], "panic")]
+        return [(conds, atoms + [n], None)]
+
+    return one(node, [], [])
